@@ -276,6 +276,11 @@ func c11FileCheck(c c11FileCase) *kit.Verdict {
 	}
 	var stream []req
 	for _, li := range c.Lookups {
+		if li == -2 && len(stream) > 0 {
+			// the same destination again, right away (one request per port of a host)
+			stream = append(stream, stream[len(stream)-1])
+			continue
+		}
 		if li >= 0 && li < len(c.Lines) && c.Lines[li].V6 == "" {
 			stream = append(stream, req{c.Lines[li].IP, true})
 		} else {
@@ -381,14 +386,16 @@ func (g *c11ReqGen) GenerateRequests(ctx context.Context, r *scan.Range) (<-chan
 func TestC11CacheFile(t *testing.T) {
 	kit.Run(t, kit.Spec[c11FileCase]{
 		Prop: "C11",
-		Rule: "cache files of 1..400 lines (duplicate addresses, 4-byte and ::ffff: spellings, upper/lower-case MACs, unknown extra fields, lines of IPv6 neighbours) loaded by arp.FillCache, then request streams (addresses in the file and not in it incl. 0.0.0.0, 4- or 16-byte DstIP) resolved through arp.NewCacheRequestGenerator by 1..32 concurrent readers of the shared cache, gateway MAC present or absent, race detector on. Oracle: DstMAC = MAC of the last line for the request's own address, else the gateway MAC, else the request carries an error; destination unchanged; same count in and out. non-trivial: >=2 lines and >=2 lookups; distinct by case",
+		Rule: "cache files of 1..400 lines (duplicate addresses, 4-byte and ::ffff: spellings, upper/lower-case MACs, unknown extra fields, lines of IPv6 neighbours) loaded by arp.FillCache, then request streams (addresses in the file and not in it incl. 0.0.0.0, the same address several times in a row, 4- or 16-byte DstIP) resolved through arp.NewCacheRequestGenerator by 1..32 concurrent readers of the shared cache, gateway MAC present or absent, race detector on. Oracle: DstMAC = MAC of the last line for the request's own address, else the gateway MAC, else the request carries an error; destination unchanged; same count in and out. non-trivial: >=2 lines and >=2 lookups; distinct by case",
 		Gen: func(t *rapid.T) c11FileCase {
 			c := c11FileCase{Gateway: rapid.Bool().Draw(t, "gw"), Readers: rapid.SampledFrom([]int{1, 2, 8, 32}).Draw(t, "readers"), Long16: rapid.Bool().Draw(t, "long16")}
 			c.Lines = c11GenLines(t, rapid.SampledFrom([]int{1, 2, 5, 20, 400}).Draw(t, "nlines"))
 			nl := rapid.SampledFrom([]int{1, 4, 30, 150}).Draw(t, "nlookups")
 			for i := 0; i < nl; i++ {
-				if rapid.IntRange(0, 3).Draw(t, "miss") == 0 {
+				if k := rapid.IntRange(0, 5).Draw(t, "miss"); k == 0 {
 					c.Lookups = append(c.Lookups, -1)
+				} else if k == 1 {
+					c.Lookups = append(c.Lookups, -2)
 				} else {
 					c.Lookups = append(c.Lookups, kit.Uniform(t, "line", len(c.Lines)))
 				}
